@@ -19,7 +19,7 @@ func init() {
 		return simrt.Options{MaxSteps: 400000, StallPermille: 40, StallMax: 3 * time.Millisecond}
 	}, Body: limiterBody})
 	runner.Register("C20", runner.Scenario{Name: "limiter-preempt", Options: func(string) simrt.Options {
-		return simrt.Options{MaxSteps: 400000, ParkPermille: 15, MapPausePermille: 200}
+		return simrt.Options{MaxSteps: 400000, ParkPermille: 15, MapPausePermille: 200, SpawnPausePermille: 30}
 	}, Body: limiterBody})
 }
 
